@@ -46,8 +46,8 @@ PROPS = {
             'loop-free full-domain postconditions on the real lookup code (CBMC)'),
     'C18': ('proof', 'Value + frame of the erase functions modulo primitive contracts, plus ghost event ordering "a memory barrier follows the last store" (barrier intrinsic given a ghost body); primitives bounded by enumeration. The quantifier over compilers is an assumption.',
             'ghost-clock postcondition + primitive contracts (CBMC); enumerated bounded checks of mem_prim_set*'),
-    'C19': ('model_checking', 'Bounded n <= 6: result against reference; data independence by self-composition over mechanically inserted branch events (goto-instrument --branch).',
-            'self-composition on branch traces + reference comparison (bounded CBMC)'),
+    'C19': ('proof', 'Every n (loop contracts): the numbers of taken / not-taken branch events (inserted mechanically by goto-instrument --branch) are ghost state of the loop contract and agree for two runs on independent contents; result 0 implies equal regions, value range, sign at index 0. Bounded n <= 6: complete result against a reference, exact branch sequence by self-composition.',
+            'ghost branch counters in loop contracts + two-run harness (CBMC contracts); bounded self-composition on branch traces'),
     'C20': ('model_checking', 'Bounded: every subset of the internal allocations fails (cbmc --malloc-may-fail --malloc-fail-null), memory-leak check, NULL-dereference obligations and dest-cleared-on-failure for the %ls / %L paths of the printf engine and the four wide printf no-space probes; wcsnorm_s / wcsicmp_s allocations not reached.',
             'allocation-failure enumeration by the verifier malloc model + leak obligation (bounded CBMC)'),
     'C08': ('proof', 'Postcondition "zero is absorbing behind the terminator up to dmax" with arbitrary prior contents, both sides of the 0x20 memset switch reachable (canaries).',
